@@ -257,17 +257,7 @@ def op_cmp(t):
     _md(t)
     a = rd_tp(t)
     b = rd_tp(t)
-    lt, eq, gt = a < b, a == b, a > b
-    le, ge, ne = a <= b, a >= b, a != b
-    # canonical three-way outcome only when the six operators are coherent
-    if eq and not lt and not gt and le and ge and not ne:
-        return "EQ"
-    if lt and not eq and not gt and le and not ge and ne:
-        return "LT"
-    if gt and not eq and not lt and ge and not le and ne:
-        return "GT"
-    return "INCOHERENT lt=%d eq=%d gt=%d le=%d ge=%d ne=%d" % (
-        lt, eq, gt, le, ge, ne)
+    return cmp3(a, b)
 
 
 def op_hashkey(t):
@@ -489,6 +479,106 @@ def op_localtz_os(t):
 
 
 OPS["localtz_os"] = op_localtz_os
+
+
+def to_kind(p, k):
+    if k == "C":
+        return p.to_calendar_date()
+    if k == "O":
+        return p.to_ordinal_date()
+    if k == "W":
+        return p.to_week_date()
+    return p
+
+
+def rd_operand(t):
+    p = rd_tp(t)
+    d = rd_dur(t)
+    z = TimeZone(hours=t.z(), minutes=t.z())
+    k = t.next()
+    return to_kind((p + d).to_time_zone(z), k)
+
+
+def cmp3(a, b):
+    lt, eq, gt = a < b, a == b, a > b
+    le, ge, ne = a <= b, a >= b, a != b
+    if eq and not lt and not gt and le and ge and not ne:
+        return "EQ"
+    if lt and not eq and not gt and le and not ge and ne:
+        return "LT"
+    if gt and not eq and not lt and ge and not le and ne:
+        return "GT"
+    return "INCOHERENT lt=%d eq=%d gt=%d le=%d ge=%d ne=%d" % (
+        lt, eq, gt, le, ge, ne)
+
+
+def op_pair(t):
+    _md(t)
+    a = rd_operand(t)
+    b = rd_operand(t)
+    sa, sb = sh_tp(a), sh_tp(b)
+    c = cmp3(a, b)
+    h = _b(hash(a) == hash(b))
+    d = a - b
+    r = b + d
+    out = " ; ".join([sa, sb, c, h, sh_dur(d), sh_tp(r), cmp3(r, a)])
+    if sh_tp(a) != sa or sh_tp(b) != sb:
+        return "MUTATED operands changed by comparison/hash/subtraction"
+    return out
+
+
+def op_addsub(t):
+    _md(t)
+    p = rd_tp(t)
+    d = rd_dur(t)
+    dd = (p + d) - p
+    return "%s ; %s" % (sh_dur(dd), _b(dd == d))
+
+
+def op_tolocal(t):
+    _md(t)
+    p = rd_tp(t)
+    h, m = t.z(), t.z()
+    secs = -(h * 3600 + m * 60)
+    return sh_tp(with_fake_time(secs, secs, 0, 0, p.to_local_time_zone))
+
+
+def op_toutc(t):
+    _md(t)
+    return sh_tp(rd_tp(t).to_utc())
+
+
+OPS.update({"pair": op_pair, "addsub": op_addsub, "tolocal": op_tolocal,
+            "toutc": op_toutc})
+
+
+def op_addstaged(t):
+    _md(t)
+    p = rd_tp(t)
+    d = rd_dur(t).to_days()
+    p1 = p + Duration(days=d._days, hours=d._hours, minutes=d._minutes,
+                      seconds=d._seconds)
+    p2 = p1 + Duration(months=d._months)
+    return sh_tp(p2 + Duration(years=d._years))
+
+
+def op_addmonths(t):
+    _md(t)
+    p = rd_tp(t)
+    return sh_tp(p.add_months(t.z()))
+
+
+def op_addsteps(t):
+    _md(t)
+    p = rd_tp(t)
+    n = t.z()
+    for _ in range(abs(n)):
+        p = p.add_months(1 if n > 0 else -1)
+    return sh_tp(p)
+
+
+OPS.update({"addstaged": op_addstaged, "addmonths": op_addmonths,
+            "addsteps": op_addsteps})
 
 
 def eval_line(line, timeout=10):
